@@ -1,11 +1,11 @@
 ------------------------------ MODULE ModesTab ------------------------------
 (* C11 table spec: TLC computes the ciphertext of each (mode, iv, family, length). *)
 EXTENDS SM4, TLC, Json
-CONSTANTS CasesFile     \* ndjson, one [mode, iv, fam, len] per line
+CONSTANTS CasesFile     \* ndjson, one [mode, iv, fam, len, key] per line
 CaseSeq == ndJsonDeserialize(CasesFile)
 VARIABLES c, done
 M == INSTANCE Modes WITH ModeSet <- {}, IvIds <- {}, LenSet <- {}, MaxOps <- 0, iv <- 0, hist <- <<>>
-KeyB == [j \in 1..16 |-> (7 * 37 + j * 101 + j * j * 10) % 256]          \* Val(<<"lcg", 7>>)
+KeyB(k) == [j \in 1..16 |-> (k * 37 + j * 101 + j * j * (k + 3)) % 256]      \* Val(<<"lcg", k>>); the usual key is k = 7
 IvB(i) == IF i = 0 THEN [j \in 1..16 |-> 0] ELSE [j \in 1..16 |-> (i * 53 + j * 17) % 256]
 PtByte(f, n, i) == CASE f = 0 -> (i * 29 + 11) % 256
                      [] f = 1 -> 1 + ((n - i) % 16)      \* ends ... 03 02 01: looks like padding
@@ -14,6 +14,6 @@ Pt(f, n) == [i \in 1..n |-> PtByte(f, n, i)]
 Init == c \in 1..Len(CaseSeq) /\ done = FALSE
 Next == /\ ~done /\ done' = TRUE /\ c' = c
         /\ LET x == CaseSeq[c] IN
-           PrintT(<<"CASE", ToJson([case |-> x, expect |-> M!Encrypt(x.mode, KeyB, IvB(x.iv), Pt(x.fam, x.len))])>>)
+           PrintT(<<"CASE", ToJson([case |-> x, expect |-> M!Encrypt(x.mode, KeyB(x.key), IvB(x.iv), Pt(x.fam, x.len))])>>)
 Spec == Init /\ [][Next]_<<c, done>>
 =============================================================================
